@@ -4,3 +4,4 @@ import LyModel.Props.C12
 #print axioms LyModel.XmlText.esc_eq_spec
 #print axioms LyModel.JsonText.esc_eq_spec
 #print axioms LyModel.Props.C12.xml_document_faithful
+#print axioms LyModel.Props.C12.json_typing_rfc7951
